@@ -68,3 +68,19 @@ Theorem C03_dict3_collision_outside_domain :
   v1 <> v2 /\ enc v1 = enc v2 /\ ~ wf_ty (TDict (TDict (TDict TInt))).
 Proof. exact dict3_collision_outside_domain. Qed.
 Print Assumptions C03_dict3_collision_outside_domain.
+
+(* the full identifier (job directory): the outer stream raw ‖ sorted pre-task identifiers ‖
+   [INIT_TASKS ‖ init-task identifiers] determines the raw identifier, the collection of pre-task
+   identifiers and the SEQUENCE of init-task identifiers (32-byte identifiers; excluded event: a
+   pre-task identifier starting with the INIT_TASKS byte)                                        *)
+Theorem C03_full_identifier_stream_injective : forall raw1 raw2 p1 p2 i1 i2,
+  id32 raw1 -> id32 raw2 -> Forall id32 p1 -> Forall id32 p2 -> Forall not_marker p1 -> Forall not_marker p2 ->
+  Forall id32 i1 -> Forall id32 i2 ->
+  full_stream raw1 p1 i1 = full_stream raw2 p2 i2 -> raw1 = raw2 /\ p1 = p2 /\ i1 = i2.
+Proof. exact full_stream_inj. Qed.
+Print Assumptions C03_full_identifier_stream_injective.
+
+Theorem C03_model_full_identifier_hashes_stream : forall H raw pre init,
+  full_of H raw pre init = H (full_stream raw (sort_by (fun x => x) pre) init).
+Proof. exact full_of_stream. Qed.
+Print Assumptions C03_model_full_identifier_hashes_stream.
